@@ -1,14 +1,15 @@
-\* exhaustive, reference semantics: <= 2 batches x <= 2 ops, <= 3 ops per history, 2 names, 2 label shapes, 2 groups, 1 hook, values {0.5, 1.0}, 3 invalid ops (VIEW hides the history)
+\* exhaustive, reference semantics: <= 2 batches x <= 2 ops, <= 3 ops per history, 1 name, 2 label shapes, 2 groups, 2 hooks (first batch from h1: hooks are interchangeable), values {0.5, 1.0}, 3 invalid ops (VIEW hides the history)
 SPECIFICATION Spec
 CONSTANTS
-  Names = {"m1", "m2"}
+  Names = {"m1"}
   LabelSets <- LS2
   Groups = {"g1", "g2"}
-  Hooks = {"h1"}
+  Hooks = {"h1", "h2"}
   Values = {1, 2}
   InvalidSel <- InvFew
   MaxBatches = 2
   MaxOps = 2
+  SymHooks = TRUE
   MinOps = 0
   MaxTotalOps = 3
   MaxInvalid = 2
